@@ -69,8 +69,10 @@ def one_case(rng, tier, classes, cflags, force=None):
         absent = rng.choice([1, 2])
     if sroot:
         start = scope
+    # (an S-rooted destination whose absent tail starts with `*` would enumerate — and write into —
+    # glom's own scope maps, including the process-global default scope: never generated)
     steps = M.gen_dest(rng, heap, start, maxlen, want_present=rng.random() < 0.5, absent_tail=absent,
-                       star_p=force.get('star_p', 0.15))
+                       star_p=0 if (sroot and missing) else force.get('star_p', 0.15))
     if sroot and steps and steps[0][0] != 'key':
         steps[0] = ('key', {'s': 'd'})
     if rng.random() < force.get('mut_p', 0.25):
@@ -154,6 +156,8 @@ def run_impl(case):
             val = getattr(val, dv(arg)) if op == '.' else val[dv(arg)]
     fac = Factory(case['missing']) if case.get('missing') else None
     out = dict(case)
+    default_map = glom.core._DEFAULT_SCOPE.maps[0]
+    default_keys = set(default_map)
     try:
         path = M.build_path(case, dv)
         if case.get('api') == 'assign' and not kwargs:
@@ -165,6 +169,8 @@ def run_impl(case):
     else:
         a = enc.ids.get(id(res))
         r = {'ok': {'r': a} if a is not None and enc.is_container(res) else pyobjs.enc_val(res, lambda x: None)}
+    for k in set(default_map) - default_keys:     # keep the process-global default scope clean
+        del default_map[k]
     if fac:
         for o in fac.made:
             enc.reserve(o)
